@@ -10,6 +10,12 @@ models of Hand/Draw.lean (rvdrv, Hand/DispatchC04.lean):
   witness   the witness lines of the REMAINING findings (float-only rounding, rand's Uniform scale loop, ln_pflips top variate);
   drawchk   seeded (`Xoshiro256Plus::seed_from_u64`) checks of all sampleable distributions: non-finite / unsupported / panics /
             determinism / `sample(n)` length; standard parameters must give `0 0 0 T T`; the small-shape lines are the known class;
+  joint     ConjugateModel (src/model.rs) over Beta/Bernoulli, Gamma/Poisson, NormalGamma/Gaussian: `sample(n)` from a seed is
+            bit-identical to n successive `draw`s from the same generator state (true of the code: both run `posterior().draw;
+            fx.draw` per element — hand model `Hand.conjugateSample`), plus a fixed-seed TEST of the joint law of `sample(2)` /
+            `sample(50)` for Beta–Bernoulli (agreement rate p̄²+(1−p̄)², Binomial variance of the count; 6σ);
+  scaling   same-seed scaling of the prior draws: NormalGamma / NormalInvChiSquared / NormalInvGamma / NormalInvWishart drawn with
+            the same seed and precision multiplier k resp. 1 satisfy (μ_k − m)·√k = μ_1 − m (√v for NIG) and have the same Σ / σ;
   stat      a fixed-seed Kolmogorov–Smirnov TEST (not a theorem) of `sample(n)` of the delegating samplers against the object's
             own `cdf` (gen_dispatch ops `<Dist>.cdf_real` / `.cdf_nat`), rejected only below p = 1e-6.
 
@@ -155,6 +161,12 @@ class Gen:
                 wts[-1] = 0.5
             mus = [real() for _ in range(k)]
             bs = [pos() for _ in range(k)]
+            if r.random() < 0.5:
+                # weights that pass `Mixture::new` (|Σ−1| ≤ 1e-12) but whose left-to-right binary64 sum may be below 1
+                k = r.choice([3, 6, 7, 10, 11, 49])
+                wts = [1.0 / k] * k
+                mus = [real() for _ in range(k)]
+                bs = [pos() for _ in range(k)]
             add('Mixture.draw', 'draw.MixtureLaplace f64 %s %s %s %s' % (LF(wts), LF(mus), LF(bs), L(ws1 + [rw()])))
             n = r.randrange(0, 4)
             add('Mixture.sample', 'sample.MixtureLaplace f64 %s %s %s %d %s' % (LF(wts), LF(mus), LF(bs), n, L(ws1 + [rw() for _ in range(2 * n)])))
@@ -175,6 +187,8 @@ class Gen:
             wts = [r.random() for _ in range(k)]
             s = sum(wts)
             add('Categorical.sample', 'sample.Categorical usize %s %d %s' % (LF([math.log(w / s) for w in wts]), n, L(sw)))
+            a1, a2 = pos(), pos()
+            add('UnitPowerLaw.set_alpha', 'hist.UnitPowerLaw f64 %s %s %s' % (fx(a1), fx(a2), L([ws1[0], rw()])))
             add('fma', 'fma - %s %s %s' % (fx(real() * 10 ** r.randint(-300, 300)), fx(real() * 10 ** r.randint(-10, 10)), fx(real() * 10 ** r.randint(-300, 300))))
             x, y = r.uniform(-2, 2), r.uniform(-2, 2)
             add('fma', 'fma - %s %s %s' % (fx(x), fx(y), fx(-x * y)))
@@ -344,6 +358,117 @@ def run_drawchk(n, seed):
     return out
 
 
+# ---------------------------------------------------------------------------------------------------------------- Mixture<Gaussian>
+def run_mixture_gaussian():
+    """implementation only (the component draw is rand_distr's ziggurat): valid weights [1/k; k] and the extreme first words must
+    never panic; the script ends with a word the ziggurat accepts at once"""
+    lines = []
+    for k in (2, 3, 6, 7, 10, 11, 49):
+        for w in EXTREME:
+            lines.append('draw.MixtureGaussian f64 %s %s %s %s' % (LF([1.0 / k] * k), LF([float(i) for i in range(k)]), LF([1.0] * k),
+                                                                 L([w, (1 << 63) | 100])))
+    a = pipe(H, lines)
+    return [{'site': 'Mixture.draw', 'line': l, 'impl': x, 'ok': len(x.split()) == 3 and x.split()[1] == 'T'} for l, x in zip(lines, a)]
+
+
+# ---------------------------------------------------------------------------------------------------------------- ConjugateModel
+def run_joint(tier, seed):
+    r = random.Random(1000 + seed)
+    res = []
+    B = lambda bs: 'L%d %s' % (len(bs), ' '.join('T' if b else 'F' for b in bs)) if bs else 'L0'
+    lines, meta = [], []
+    for n in (0, 1, 2, 5, 50):
+        for _ in range(2 if tier == 'quick' else 6):
+            sd = r.randrange(1 << 40)
+            a, b = r.choice([(1.0, 1.0), (0.5, 0.5), (2.0, 3.0), (10.0, 1.0)])
+            data = [r.random() < 0.4 for _ in range(r.choice([0, 0, 3, 20]))]
+            lines.append('cmseq.BetaBernoulli - %s %s %s %d %d' % (fx(a), fx(b), B(data), sd, n))
+            ds = [r.randrange(0, 9) for _ in range(r.choice([0, 2, 10]))]
+            lines.append('cmseq.GammaPoisson - %s %s %s %d %d' % (fx(r.choice([1.0, 2.0, 0.5])), fx(r.choice([1.0, 1.5])), L(ds), sd, n))
+            xs = [r.gauss(1.0, 2.0) for _ in range(r.choice([0, 3, 12]))]
+            lines.append('cmseq.NormalGammaGaussian - %s %s %s %s %s %d %d' % (fx(0.0), fx(1.0), fx(1.0), fx(1.0), LF(xs), sd, n))
+            meta += [(n, 'ConjugateModel.sample')] * 3
+    for l, (n, site), x in zip(lines, meta, pipe(H, lines, hang_ms=20000)):
+        t = x.split()
+        ok = t[:2] == ['T', 'T'] and len(t) == 3 + n
+        obs = '' if ok else ('length' if t[:1] == ['T'] else ('sequence' if t[:1] == ['F'] else (t[0] if t else 'DIED')))
+        res.append({'site': site, 'cls': 'conjugate_sample_vs_draws', 'line': l, 'impl': x[:300], 'ok': ok, 'observed': obs,
+                    'expected': 'T T: sample(n) bit-identical to n successive draws (same seed), n values'})
+    # joint law TEST for Beta–Bernoulli: a fresh θ per element gives P(x0 = x1) = p̄² + (1−p̄)², a shared θ gives E[θ²] + E[(1−θ)²]
+    reps = 20000 if tier == 'quick' else 100000
+    for (a, b, data) in [(1.0, 1.0, []), (2.0, 3.0, []), (0.5, 0.5, [True, False, False])]:
+        sd = 3076 + seed
+        kk, nn = sum(data), len(data)
+        pbar = (a + kk) / (a + b + nn)
+        x = pipe(H, ['cmpair.BetaBernoulli - %s %s %s %d %d' % (fx(a), fx(b), B(data), sd, reps)], hang_ms=20000)[0]
+        line = 'cmpair.BetaBernoulli - %s %s %s %d %d' % (fx(a), fx(b), B(data), sd, reps)
+        t = x.split()
+        pa = pbar * pbar + (1 - pbar) * (1 - pbar)
+        if len(t) == 2:
+            fa, ft = int(t[0]) / reps, int(t[1]) / (2.0 * reps)
+            za = (fa - pa) / math.sqrt(pa * (1 - pa) / reps)
+            zt = (ft - pbar) / math.sqrt(pbar * (1 - pbar) / (2 * reps))
+            ok = abs(za) <= 6 and abs(zt) <= 6
+            det = 'P(x0=x1) = %.4f (independent draws: %.4f, z = %.1f); P(true) = %.4f (%.4f, z = %.1f)' % (fa, pa, za, ft, pbar, zt)
+        else:
+            ok, det = False, x
+        res.append({'site': 'ConjugateModel.sample', 'cls': 'conjugate_sample_joint_law', 'line': line, 'impl': det, 'ok': ok,
+                    'observed': '' if ok else 'dependent', 'expected': 'agreement rate of sample(2) within 6σ of p̄²+(1−p̄)²'})
+    n, reps2 = 50, (2000 if tier == 'quick' else 10000)
+    line = 'cmcount.BetaBernoulli - %s %s L0 %d %d %d' % (fx(1.0), fx(1.0), 17 + seed, n, reps2)
+    t = pipe(H, [line], hang_ms=20000)[0].split()
+    if len(t) == reps2 + 1:
+        cs = [int(v) for v in t[1:]]
+        m = sum(cs) / reps2
+        var = sum((c - m) ** 2 for c in cs) / (reps2 - 1)
+        ok = abs(var / 12.5 - 1) <= 6 * math.sqrt(2.0 / (reps2 - 1)) + 0.02
+        det = 'variance of #true in sample(50) = %.2f (Binomial(50, 1/2): 12.5; one shared θ: 216.7)' % var
+    else:
+        ok, det = False, ' '.join(t)[:200]
+    res.append({'site': 'ConjugateModel.sample', 'cls': 'conjugate_sample_joint_law', 'line': line, 'impl': det, 'ok': ok,
+                'observed': '' if ok else 'dependent', 'expected': 'variance of the count within 6σ of n p̄ (1−p̄)'})
+    return res
+
+
+# ---------------------------------------------------------------------------------------------------------------- prior scaling
+def run_scaling(tier, seed):
+    """same seed, precision multiplier k vs 1: the mean deviation scales by 1/√k (√v for NIG), the scale part is unchanged"""
+    res, lines, meta = [], [], []
+    seeds = [seed * 101 + i for i in range(3 if tier == 'quick' else 12)]
+    ks = [4.0, 0.25, 9.0]
+    for sd in seeds:
+        for k in ks:
+            for name, mk, power in (
+                    ('NormalGamma', lambda kk: '%s %s %s %s' % (fx(1.5), fx(kk), fx(2.0), fx(3.0)), -0.5),
+                    ('NormalInvChiSquared', lambda kk: '%s %s %s %s' % (fx(1.5), fx(kk), fx(3.0), fx(2.0)), -0.5),
+                    ('NormalInvGamma', lambda kk: '%s %s %s %s' % (fx(1.5), fx(kk), fx(3.0), fx(2.0)), 0.5)):
+                lines += ['seeddraw.%s - %s %d' % (name, mk(1.0), sd), 'seeddraw.%s - %s %d' % (name, mk(k), sd)]
+                meta.append((name, k, power, [1.5]))
+            mk = lambda kk: '%s %s 4 %s' % (LF([1.0, -1.0, 0.5]), fx(kk), LF([2.0, 0.5, 0.0, 0.5, 1.0, 0.2, 0.0, 0.2, 1.5]))
+            lines += ['seeddraw.NormalInvWishart - %s %d' % (mk(1.0), sd), 'seeddraw.NormalInvWishart - %s %d' % (mk(k), sd)]
+            meta.append(('NormalInvWishart', k, -0.5, [1.0, -1.0, 0.5]))
+    a = pipe(H, lines, hang_ms=20000)
+    for i, (name, k, power, m0) in enumerate(meta):
+        x1, xk = a[2 * i].split(), a[2 * i + 1].split()
+        d = len(m0)
+        try:
+            if name == 'NormalInvWishart':
+                mu1, muk = [unfx(v) for v in x1[1:1 + d]], [unfx(v) for v in xk[1:1 + d]]
+                rest_same = x1[1 + d:] == xk[1 + d:]
+            else:
+                mu1, muk = [unfx(x1[0])], [unfx(xk[0])]
+                rest_same = x1[1:] == xk[1:]
+            dev = max(abs((mk_ - m) - (m1 - m) * k ** power) / max(1e-300, abs(m1 - m) * k ** power) for m, m1, mk_ in zip(m0, mu1, muk))
+            ok = rest_same and dev <= 1e-9
+            det = 'max relative deviation of (μ_k − m) from (μ_1 − m)·k^%g: %.3g; scale part identical: %s' % (power, dev, rest_same)
+        except Exception as e:
+            ok, det = False, 'unreadable answers %s | %s' % (a[2 * i][:80], a[2 * i + 1][:80])
+        res.append({'site': name + '.draw', 'cls': 'prior_draw_scaling', 'line': lines[2 * i + 1] + '   (vs k = 1: ' + lines[2 * i] + ')',
+                    'impl': a[2 * i + 1][:200] + ' | k=1: ' + a[2 * i][:200], 'ok': ok, 'observed': '' if ok else 'scale',
+                    'expected': '(mu_k - m) = (mu_1 - m) * k^%g with the same seed; ' % power + det})
+    return res
+
+
 # ---------------------------------------------------------------------------------------------------------------- stat
 def ks_p(d, n):
     lam = (math.sqrt(n) + 0.12 + 0.11 / math.sqrt(n)) * d
@@ -416,8 +541,11 @@ def run(tier='quick', seed=4, harness=None, driver=None):
     reg, wit = run_witness()
     chk = run_drawchk(N_CHK.get(tier, 400), 7 + seed)
     st = run_stat(11 + seed)
-    return {'corr': corr, 'notes': notes, 'evaluations': nlines + len(reg) + len(wit) + len(chk) + len(st),
-            'regress': reg, 'witness': wit, 'drawchk': chk, 'stat': st}
+    mg = run_mixture_gaussian()
+    jt = run_joint(tier, seed)
+    sc = run_scaling(tier, seed)
+    return {'corr': corr, 'notes': notes, 'evaluations': nlines + len(reg) + len(wit) + len(chk) + len(st) + len(mg) + len(jt) + len(sc),
+            'regress': reg, 'witness': wit, 'drawchk': chk, 'stat': st, 'mixture_gaussian': mg, 'joint': jt, 'scaling': sc}
 
 
 if __name__ == '__main__':
@@ -437,3 +565,11 @@ if __name__ == '__main__':
         print('drawchk', 'known' if x['known'] else 'std  ', (x['site'], x['cls'], x['observed']), x['impl'])
     for x in r['stat']:
         print('stat', 'ok ' if x['ok'] else 'BAD', x['name'], x['detail'])
+    for key in ('mixture_gaussian', 'joint', 'scaling'):
+        bad = [x for x in r[key] if not x['ok']]
+        print(key, len(r[key]), 'lines,', len(bad), 'bad')
+        for x in bad[:4]:
+            print('   BAD', x['site'], x['line'][:200], '|', x['impl'][:200])
+    for x in r['joint']:
+        if x['cls'] == 'conjugate_sample_joint_law':
+            print('   joint', x['impl'])
